@@ -391,6 +391,8 @@ func (s *Sim) Apply(op Op) *Violation {
 		return s.opRules(op)
 	case "flow":
 		return s.opFlow(op)
+	case "hostile":
+		return s.opHostile(op)
 	case "round":
 		return s.opRound(op)
 	case "cleanflow":
@@ -1408,4 +1410,91 @@ func (s *Sim) opStale(op Op) *Violation {
 		return nil
 	}
 	return s.doAck(op, c.r, s.W.Chains[c.on], "", 0, 0)
+}
+
+
+// opHostile commits attacker-chosen packet data on the NFT or MT port of chain A for chain B
+// (what a buggy or foreign counterparty application could commit). D selects the shape.
+func (s *Sim) opHostile(op Op) *Violation {
+	src := s.chain(op.A)
+	dstC := s.otherChain(src, op.B)
+	dst := dstC.Name
+	relay := s.relayChoice(src.Name, dst, op.C)
+	user := src.Accounts[0].Addr.String()
+	rcv := dstC.Accounts[mod(int(op.U), world.NumUsers)].Addr.String()
+	port := PortNFT
+	var data []byte
+	kind := mod(op.D, 14)
+	note := ""
+	switch kind {
+	case 0:
+		data, note = []byte{0xff, 0xfe, 0x01, 0x02}, "nft-garbage"
+	case 1:
+		data, note = nfttransfer.NewNonFungibleTokenPacketData("evilclass", "x", "", user, rcv, true, "").GetBytes(), "nft-invalid-id"
+	case 2:
+		data, note = nfttransfer.NewNonFungibleTokenPacketData("kitty", "tok1", "", user, rcv, false, "").GetBytes(), "nft-back-no-prefix"
+	case 3:
+		data, note = nfttransfer.NewNonFungibleTokenPacketData("nft/"+dst+"/"+src.Name+"/nosuch", "tok9", "", user, rcv, false, "").GetBytes(), "nft-back-unknown"
+	case 4:
+		data, note = nfttransfer.NewNonFungibleTokenPacketData("evilclass", "tok1", "", user, "  ", true, "").GetBytes(), "nft-blank-receiver"
+	case 5:
+		data, note = nfttransfer.NewNonFungibleTokenPacketData("evilclass", "tok1", "", "", rcv, true, "").GetBytes(), "nft-blank-sender"
+	case 6:
+		data, note = nfttransfer.NewNonFungibleTokenPacketData("evilclass", "tok1", strings.Repeat("u", 300), user, rcv, true, "").GetBytes(), "nft-long-uri"
+	case 7:
+		port = PortMT
+		data, note = []byte{0x0a, 0xff, 0xff}, "mt-garbage"
+	case 8:
+		port = PortMT
+		data, note = mttransfer.NewMultiTokenPacketData("evildenom", "m1", user, rcv, true, "", 0, nil).GetBytes(), "mt-zero-amount"
+	case 9:
+		port = PortMT
+		data, note = mttransfer.NewMultiTokenPacketData("evildenom", "m1", user, rcv, true, "", ^uint64(0), nil).GetBytes(), "mt-max-amount"
+	case 10:
+		port = PortMT
+		data, note = mttransfer.NewMultiTokenPacketData("mt/"+dst+"/"+src.Name+"/nosuch", "m1", user, rcv, false, "", 5, nil).GetBytes(), "mt-back-unknown"
+	case 11:
+		port = PortMT
+		data, note = mttransfer.NewMultiTokenPacketData("evildenom", "m1", user, "zzz", true, "", 5, nil).GetBytes(), "mt-bad-receiver"
+	case 12:
+		port = PortMT
+		data, note = mttransfer.NewMultiTokenPacketData("plainclass", "m1", user, rcv, false, "", 5, nil).GetBytes(), "mt-back-no-prefix"
+	default:
+		port = "noport"
+		data, note = []byte("x"), "unknown-port"
+	}
+	r, err := s.HostileSend(src, dst, relay, port, data)
+	if err != nil {
+		return nil
+	}
+	s.Label("hostile:" + note)
+	_ = r
+	return nil
+}
+
+// LabelFailureStage classifies failing steps by where the fault was detected.
+func LabelFailureStage(s *Sim, st *Step) *Violation {
+	if st.OK || st.Res == nil {
+		return nil
+	}
+	log := st.Res.Log
+	switch {
+	case strings.Contains(log, "commitment verification") || strings.Contains(log, "acknowledgement verification") ||
+		strings.Contains(log, "invalid proof") || strings.Contains(log, "proof height") || strings.Contains(log, "consensus state"):
+		s.Label("stage:proof")
+	case strings.Contains(log, "callback failed") || strings.Contains(log, "cannot unmarshal"):
+		s.Label("stage:callback")
+	case strings.Contains(log, "acknowledgement already exists") || strings.Contains(log, "acknowledgement exists"):
+		s.Label("stage:late")
+	case strings.Contains(log, "already has been received") || strings.Contains(log, "commitment bytes are not equal") ||
+		strings.Contains(log, "sequence illegal"):
+		s.Label("stage:replay-protection")
+	case strings.Contains(log, "not found") || strings.Contains(log, "unauthorized") || strings.Contains(log, "route"):
+		s.Label("stage:routing")
+	case strings.Contains(log, "insufficient") || strings.Contains(log, "not exist") || strings.Contains(log, "owner") || strings.Contains(log, "invalid NFT") || strings.Contains(log, "invalid mt"):
+		s.Label("stage:application")
+	default:
+		s.Label("stage:validation")
+	}
+	return nil
 }
